@@ -260,11 +260,18 @@ def tie(ctx, tier_override=None, tag="tie"):
             compared += 2
             for f in ("sig", "fsig"):
                 if im.get(f) != m.get(f):
-                    if m.get(f) == "0":
+                    api = "getglobal" if f == "sig" else "getfunction"
+                    if m.get(f) == "0" and im.get(f) == "1":
+                        # the dangerous direction: a value is handed out at a type it does not have
+                        key = "marshal:%s:%s-accepted:%s" % (case["stored"], api, case["requested"])
                         what = "a request for a %s at the Rust type %s is answered instead of refused with a type error" % (case["stored"], case["requested"])
+                    elif m.get(f) == "1" and im.get(f) == "0":
+                        key = "marshal:%s:%s-refused:%s" % (case["stored"], api, case["requested"])
+                        what = "a request for a %s at the Rust type %s (same Gluon type) is refused with a type error" % (case["stored"], case["requested"])
                     else:
-                        what = "a request for a %s at the Rust type %s (same Gluon type) is refused" % (case["stored"], case["requested"])
-                    add("marshal:%s:%s:%s" % (case["stored"], "getglobal" if f == "sig" else "getfunction", case["requested"]), what, case, m.get(f), im.get(f))
+                        key = "marshal:%s:%s-failed:%s" % (case["stored"], api, case["requested"])
+                        what = "a request for a %s at the Rust type %s neither returns nor is refused with a type error (%s)" % (case["stored"], case["requested"], im.get(f))
+                    add(key, what, case, m.get(f), im.get(f))
             if m.get("sig") == "1" and im.get("sig") == "1" and im.get("x") != m.get("x"):
                 add("marshal:%s:getglobal-value:%s" % (case["stored"], case["requested"]),
                     "an accepted request reads a different value than the modelled Getable instance", case, m.get("x"), im.get("x"))
